@@ -10,14 +10,17 @@ namespace {
 using namespace vfps;
 
 struct FieldCfg {
-    unsigned nx, nb, spacing; size_t nmax; std::vector<uint32_t> buckets; bool full; uint64_t zseed; long ztail; double zscale;
+    unsigned nx, nb, spacing; size_t nmax; std::vector<uint32_t> buckets; bool full; uint64_t zseed; long ztail; double zscale; int zupper = 0;
 };
 
 static std::shared_ptr<Impedance> make_z(const FieldCfg& f) {
     Rng r(f.zseed);
     std::vector<impedance_t> z(f.nmax, impedance_t(0, 0));
     size_t half = f.nmax / 2;
-    for (size_t i = 0; i < half; i++) z[i] = impedance_t((float)(f.zscale * r.uniform(0, 1)), (float)(f.zscale * r.uniform(-0.5, 0.5)));
+    // zupper 0: bins 0..n/2-1 only; 1: bins 0..n/2 (what the analytic models deliver); 2: every bin (e.g. a table as long as the
+    // transform), with either sign of the real part above n/2 -- the object must not care about the upper half
+    size_t filled = f.zupper == 0 ? half : f.zupper == 1 ? std::min(half + 1, f.nmax) : f.nmax;
+    for (size_t i = 0; i < filled; i++) z[i] = impedance_t((float)(f.zscale * r.uniform(i >= half ? -1 : 0, 1)), (float)(f.zscale * r.uniform(-0.5, 0.5)));
     // a tail of exact zeros in the upper part of the used half (e.g. a table shorter than the transform)
     for (long i = 0; i < f.ztail && i < (long)half; i++) z[half - 1 - (size_t)i] = impedance_t(0, 0);
     return std::make_shared<Impedance>(z, 1e12f);
@@ -89,6 +92,7 @@ struct C18 : Scenario {
         p.seti("nx", nx); p.seti("nb", nb); p.setlist("buckets", chosen); p.seti("spacing", spacing); p.seti("nmax", (long)nmax);
         p.seti("full", full); p.setu("zseed", r.u64()); p.seti("ztail", r.chance(0.3) ? r.range(1, (long)nmax / 3 + 1) : 0);
         p.setd("zscale", r.chance(0.5) ? 1.0 : 1000.0);
+        p.seti("zupper", r.pick(std::vector<long>{0, 1, 1, 2}));
         p.setu("dseed", r.u64());
         p.seti("planner", (r.chance(0.1) && nmax <= 256) ? 1 : 0);
         // buggify (legal FFTW behaviour): the c2r transform destroys its input
@@ -112,7 +116,7 @@ struct C18 : Scenario {
         FieldCfg f;
         f.nx = (unsigned)plan.geti("nx"); f.nb = (unsigned)plan.geti("nb"); f.spacing = (unsigned)plan.geti("spacing");
         f.nmax = (size_t)plan.geti("nmax"); f.full = plan.geti("full") != 0; f.zseed = plan.getu("zseed"); f.ztail = plan.geti("ztail");
-        f.zscale = plan.getd("zscale", 1);
+        f.zscale = plan.getd("zscale", 1); f.zupper = (int)plan.geti("zupper", 0);
         for (long b : plan.getlist("buckets")) f.buckets.push_back((uint32_t)b);
         if (f.buckets.size() != f.nb) { o.set_infra("bad plan: buckets"); return o; }
         uint32_t maxb = 0; bool has0 = false;
@@ -178,6 +182,7 @@ struct C18 : Scenario {
         if (!has0) o.probe("reach.bucket0_empty");
         if (lc == "prime") o.probe("reach.prime_length");
         if (f.ztail > 0) o.probe("reach.impedance_zero_tail");
+        if (f.zupper > 0) o.probe(f.zupper == 1 ? "reach.impedance_nyquist_bin" : "reach.impedance_upper_half");
         if (f.spacing == 0) o.probe("reach.zero_spacing");
         if (plan.geti("planner")) o.probe("reach.planner_real");
         if (simrt::state().scribbles > 0) o.fault("fftw_c2r_input_destroyed", simrt::state().scribbles);
@@ -203,6 +208,7 @@ struct C18 : Scenario {
             Plan q = p; q.set("ops", join(v, ",")); out.push_back(q);
         }
         if (p.geti("ztail") > 0) { Plan q = p; q.seti("ztail", 0); out.push_back(q); }
+        if (p.geti("zupper", 0) > 0) { Plan q = p; q.seti("zupper", p.geti("zupper") - 1); out.push_back(q); }
         if (p.geti("planner")) { Plan q = p; q.seti("planner", 0); out.push_back(q); }
         if (p.geti("scribble", 0)) { Plan q = p; q.seti("scribble", 0); out.push_back(q); }
         if (p.geti("nb") > 1) {
